@@ -247,8 +247,8 @@ class KaniSession:
         self.last_cmd = " ".join(cmd)
         if rc == -9:
             raise Undecided("kani: timeout after %ds" % timeout)
-        if "error: could not compile" in err or "error[E" in err or re.search(r"^error: ", err, re.M) and "Checking harness" not in out:
-            err = re.sub(r"\x1b\[[0-9;]*m", "", err)
+        if "error: could not compile" in err or "error[E" in err or "error[E" in out or re.search(r"^error: ", err, re.M) and "Checking harness" not in out:
+            err = re.sub(r"\x1b\[[0-9;]*m", "", out + "\n" + err)
             errs = re.findall(r"^\s*error(?:\[E\d+\])?: .*(?:\n(?!\s*error|\s*warning).*){0,12}", err, re.M)
             errs = [e for e in errs if "could not compile" not in e] + [e for e in errs if "could not compile" in e]
             raise Undecided("kani: build error in scratch copy:\n" + "\n".join(errs[:6])[:4000])
@@ -475,6 +475,7 @@ def main():
                 undecided.append("kani: no harness with prefixes %s" % prefixes)
             else:
                 ks = KaniSession(keep=a.keep)
+                ks.harness_timeout = 600 if a.tier == "quick" else 2400
                 try:
                     res = ks.run(sorted(hs), jobs=int(os.environ.get("VERIF_JOBS", "8")),
                                  timeout=kspec.get("timeout", 1500) if a.tier == "quick" else kspec.get("timeout_thorough", 5400))
